@@ -377,6 +377,22 @@ fn body<U: Seed>(cfg: &Cfg) {
     outcome(&(obs.iter().map(|o| (o.0, o.1.map(|x| x.1))).collect::<Vec<_>>(), polled.iter().map(|p| p.map(|x| x.1)).collect::<Vec<_>>()));
 }
 
+fn probe() {
+    reset();
+    must_branch("OnceInitCell get / get_or_try_init / get", || {
+        let cell: OnceInitCell<SeedD, Val> = OnceInitCell::new(SeedD::make());
+        if cell.get().is_some() {
+            fail!("get-early", "fresh cell: get() is Some");
+        }
+        let r = cell.get_or_try_init(|_| Ok::<_, ()>(Val::new(1))).is_ok();
+        if !r || cell.get().is_none() {
+            fail!("get-final", "probe: cell not initialised after a successful initialiser");
+        }
+        drop(cell);
+    });
+    outcome(&PROBE);
+}
+
 pub fn configs(thorough: bool) -> Vec<Config> {
     use Out::*;
     let mut cfgs: Vec<Cfg> = vec![];
@@ -403,11 +419,19 @@ pub fn configs(thorough: bool) -> Vec<Config> {
             }
         }
     }
-    cfgs.into_iter()
-        .map(|c| {
+    std::iter::once(Config::new(PROBE.into(), Bound::Unbounded, probe))
+        .chain(cfgs.into_iter().map(|c| {
             let name = c.name();
             let drops = c.drops;
             Config::new(name, Bound::Tier, move || if drops { body::<SeedD>(&c) } else { body::<SeedP>(&c) })
-        })
+        }))
         .collect()
 }
+
+pub const SUB: crate::driver::Sub = crate::driver::Sub {
+    name: "c17_cell_loom",
+    property: "C17",
+    configs,
+    rule: "configs = seed type {with Drop, without Drop} x outcome vector over {Ok,Err} for 2-3 concurrent get_or_try_init/get_or_init callers x 0-2 polls of get by a further thread (+ with_value cells); every initialiser self-checks the seed and yields inside the closure; for each config loom enumerates every interleaving of the OnceCell's atomics/mutex/condvar within the preemption bound; drop ledger checked at quiescence and after dropping the cell. distinct = distinct (who ran, what each caller/poll saw) observations",
+    bound: "2-3 initialiser threads + optional poller thread (<=2 polls); same configs in both tiers",
+};
